@@ -79,6 +79,19 @@ Proof. exact sum_wait_prefix. Qed.
 Example C19_total_schedule_defaults : sum_wait 200 7 7 = 15800 /\ sum_wait 500 3 3 = 2000.
 Proof. exact sum_wait_default. Qed.
 
+(** never gives up early: whatever the polling pattern, a TIMEOUT is reported only after the whole schedule has
+    elapsed since the first transmission, less the 1 ms per wait by which stun_timer_remainder rounds down *)
+Theorem C19_no_early_timeout : forall T N now0 ps i p,
+  params_ok T N -> wf_now now0 -> sorted_from (us now0) ps ->
+  nth_error ps i = Some p -> nth_error (fst (polls (timer_start now0 T N) ps)) i = Some TIMEOUT ->
+  us now0 + (sum_wait T N (Z.to_nat (nmax N)) - nmax N) * 1000 < us p.
+Proof. exact no_early_timeout. Qed.
+Example C19_no_early_timeout_nonvacuous :
+  fst (polls (timer_start {| sec := 0; usec := 0 |} 500 3)
+        [{| sec := 0; usec := 500000 |}; {| sec := 1; usec := 500000 |}; {| sec := 2; usec := 0 |}])
+  = [RETRANSMIT; RETRANSMIT; TIMEOUT] /\ (sum_wait 500 3 (Z.to_nat (nmax 3)) - nmax 3) * 1000 = 1997000.
+Proof. exact no_early_timeout_nonvacuous. Qed.
+
 Example C19_nonvacuous :
   let now0 := {| sec := 5; usec := 999500 |} in
   let ps := [ {| sec := 6; usec := 98499 |}; {| sec := 6; usec := 99500 |}; {| sec := 6; usec := 299500 |};
